@@ -1904,7 +1904,11 @@ func (m *svMut) apply() string {
 	all, muxes := m.sigs()
 	msgs := m.msgs()
 	dangling := "zz9"
-	switch r.Intn(34) {
+	kind := r.Intn(38)
+	if kind >= 34 {
+		kind = 12 // a child with two positions: the fault the loader can only see by comparing groups
+	}
+	switch kind {
 	case 0: // delete a definition
 		switch r.Intn(6) {
 		case 0:
